@@ -238,7 +238,8 @@ theorem parseFile_alter_beyond {h : Hooks} {fuel : Nat} {buf buf' : Bytes} {st s
       by_cases h3 : rd buf 20 3 = 0xFFFFFF
       · have h32 := hF (by rw [hs3, hi3]; exact h3)
         have e24 : rd buf' 24 8 = rd buf 24 8 := ha.rd_eq (by omega)
-        simp only [el, e0, e16, e17, e18, e19, e20, e23, e24]
+        have e24t : buf'.take 24 = buf.take 24 := ha.take_le (by omega)
+        simp only [el, e0, e16, e17, e18, e19, e20, e23, e24, e24t]
       · simp only [el, e0, e16, e17, e18, e19, e20, e23, h3, if_false]
     have et : buf'.take i.extSize = buf.take i.extSize := ha.take_le (by omega)
     simp only [parseFile, hfh', hfh, et]
@@ -258,8 +259,7 @@ theorem rd_drop (b : Bytes) (o x l : Nat) : rd (b.drop o) x l = rd b (o + x) l :
   unfold rd slice; rw [List.drop_drop]
 
 theorem parseFile_none {h : Hooks} {fuel : Nat} {buf : Bytes} {st st' : St}
-    (hp : parseFile h fuel buf st = .ok (none, st')) :
-    rd buf 20 3 = 0xFFFFFF ∧ rd buf 24 8 = 0xFFFFFFFFFFFFFFFF := by
+    (hp : parseFile h fuel buf st = .ok (none, st')) : FreeSpaceLike buf := by
   cases fuel with
   | zero => simp [parseFile] at hp
   | succ fuel =>
@@ -370,8 +370,7 @@ theorem parseFiles_alter (h : Hooks) {data data' : Bytes} {lh length : Nat} {f :
       Alter data data' (align8 (startAfter pre offset) + r) →
       r < f.info.extSize → r ≠ 23 →
       (r < (if isLarge f.info.attrs = true then 32 else 24) ∨ hasChecksum f.info.attrs = true) →
-      ¬ (rd data' (align8 (startAfter pre offset) + 20) 3 = 0xFFFFFF ∧
-         rd data' (align8 (startAfter pre offset) + 24) 8 = 0xFFFFFFFFFFFFFFFF) →
+      ¬ FreeSpaceAt data' (align8 (startAfter pre offset)) →
       ∀ fs' free' st1', parseFiles h fuel data' offset lh length st = .ok (fs', free', st1') → vFiles fs' ≠ [] := by
   intro pre
   induction pre with
@@ -394,9 +393,7 @@ theorem parseFiles_alter (h : Hooks) {data data' : Bytes} {lh length : Nat} {f :
       cases fo with
       | none =>
         exfalso
-        have := parseFile_none hpf'
-        rw [rd_drop, rd_drop] at this
-        exact hfree this
+        exact hfree (parseFile_none hpf')
       | some f' =>
         simp only at hp'
         have hbad := file_alter_detected hpf hvf ha' hr h23 hcl hpf'
@@ -557,8 +554,7 @@ theorem fv_file_alter_detected (h : Hooks) {fuel : Nat} {data data' : Bytes} {of
     (hcl : r < (if isLarge f.info.attrs = true then 32 else 24) ∨ hasChecksum f.info.attrs = true)
     (hpro : fvPrologue data ≤ align8 (startAfter pre fv.info.dataOffset) + r)
     (hbig : data.length + 8 < 2 ^ 64)
-    (hfree : ¬ (rd (data'.take (rd data 32 8)) (align8 (startAfter pre fv.info.dataOffset) + 20) 3 = 0xFFFFFF ∧
-                rd (data'.take (rd data 32 8)) (align8 (startAfter pre fv.info.dataOffset) + 24) 8 = 0xFFFFFFFFFFFFFFFF)) :
+    (hfree : ¬ FreeSpaceAt (data'.take (rd data 32 8)) (align8 (startAfter pre fv.info.dataOffset))) :
     ∀ fv' st2, parseFv h fuel data' off rs st = .ok (fv', st2) → vFv fv' ≠ [] := by
   intro fv' st2 hp'
   cases fuel with
@@ -665,8 +661,7 @@ theorem alter_detected_file_first (h : Hooks) {b b' : Bytes} {fv : Fv} {st1 : St
     (hcl : r < (if isLarge f.info.attrs = true then 32 else 24) ∨ hasChecksum f.info.attrs = true)
     (hpro : fvPrologue b ≤ align8 (startAfter pre fv.info.dataOffset) + r)
     (hbig : b.length + 8 < 2 ^ 64)
-    (hfree : ¬ (rd (b'.take (rd b 32 8)) (align8 (startAfter pre fv.info.dataOffset) + 20) 3 = 0xFFFFFF ∧
-                rd (b'.take (rd b 32 8)) (align8 (startAfter pre fv.info.dataOffset) + 24) 8 = 0xFFFFFFFFFFFFFFFF)) :
+    (hfree : ¬ FreeSpaceAt (b'.take (rd b 32 8)) (align8 (startAfter pre fv.info.dataOffset))) :
     parseValidate h b' ≠ .ok [] := by
   -- the first volume of `b` validates
   unfold parseValidate parseWith at hok
